@@ -10,8 +10,11 @@
 //	glb                                            HandleRPCEndpointGetLastBlock
 //	hcb <tok>... | hcbnil | hcbraw <hex>           HandleRPCEndpointGetHighestCommonBlock
 //	bfi <tok> | bfinil | bfiraw <hex>              HandleRPCEndpointGetBlocksFromID
-//	sync [cap=k] [stop=h] [badstatic=h] [badexec=h] [common=tok|none] [force=fast|block]
+//	sync [cap=k] [stop=h] [badstatic=h] [badexec=h] [common=tok|none] [force=fast|block] [target=h tmhp=m]
 //	                                               requester node synchronises with such a peer over loopback
+//	                                               (target: the peer announced its block of that height, its tip is above)
+//	dl <tok> <h> <tok> <h> | cs fin=h n=k          downloader / common block search against the honest peer (geometry.go)
+//	reset ... st=h                                 chains with finality stalled above height h (scenario.go)
 //	     [restart=1] [sy=1]                        (pseudo-property C04SYNC only, c04sync.go: requester restarted right
 //	                                               before; forced synchroniser run with the Executer's syncying flag set)
 //
@@ -45,10 +48,12 @@ func (prop) CaseTimeout() time.Duration { return 5 * time.Minute }
 func (prop) RunImpl(c corr.Case) (outs []string, fails []corr.Fail) {
 	var cur *chains
 	var fx *fixture
+	var pr *pair
 	defer func() {
 		if fx != nil {
 			fx.close()
 		}
+		pr.stop()
 		if cur != nil {
 			release(cur)
 		}
@@ -71,6 +76,8 @@ func (prop) RunImpl(c corr.Case) (outs []string, fails []corr.Fail) {
 					fx.close()
 					fx = nil
 				}
+				pr.stop()
+				pr = nil
 				if cur != nil {
 					release(cur)
 					cur = nil
@@ -85,6 +92,7 @@ func (prop) RunImpl(c corr.Case) (outs []string, fails []corr.Fail) {
 				prm.Q, ok[2] = kvInt(w, "Q")
 				prm.N, ok[3] = kvInt(w, "n")
 				prm.Cache, ok[4] = kvInt(w, "cache")
+				prm.St, _ = kvInt(w, "st")
 				for _, o := range ok {
 					if !o {
 						return "bad-op", nil
@@ -117,6 +125,29 @@ func (prop) RunImpl(c corr.Case) (outs []string, fails []corr.Fail) {
 			}
 			if w[0] == "sync" {
 				return runSync(cur, w[1:])
+			}
+			if w[0] == "dl" || w[0] == "cs" {
+				if pr != nil && pr.hung {
+					return "timeout", nil
+				}
+				if pr != nil && pr.dead {
+					pr.stop()
+					pr = nil
+				}
+				if pr == nil {
+					var out string
+					var fs []corr.Fail
+					hb := parseBehav(nil)
+					hb.sweep = true
+					pr, out, fs = startPair(cur, hb, cur.pBlocks)
+					if pr == nil {
+						return out, fs
+					}
+				}
+				if w[0] == "dl" {
+					return pr.download(cur, w[1:])
+				}
+				return pr.commonSearch(cur, w[1:])
 			}
 			if fx == nil {
 				var err error
@@ -183,6 +214,8 @@ func (prop) RunImpl(c corr.Case) (outs []string, fails []corr.Fail) {
 
 func (prop) Classify(c corr.Case, out []string) string {
 	kinds := map[string]bool{}
+	var prm params
+	finQ := 0
 	for i, op := range c.Ops {
 		if i >= len(out) {
 			break
@@ -197,6 +230,41 @@ func (prop) Classify(c corr.Case, out []string) string {
 			first = o[0]
 		}
 		switch w[0] {
+		case "reset":
+			prm.P, _ = kvInt(w, "P")
+			prm.F, _ = kvInt(w, "F")
+			prm.Q, _ = kvInt(w, "Q")
+			prm.N, _ = kvInt(w, "n")
+			finQ, _ = kvInt(w, "finQ")
+		case "dl":
+			if len(w) != 5 {
+				continue
+			}
+			// geometry class: responses needed x position of the peer's tip relative to the end block
+			sh, _ := strconv.Atoi(w[2])
+			eh, _ := strconv.Atoi(w[4])
+			cl := "other"
+			if w[1] == "p"+w[2] && w[3] == "p"+w[4] && sh < eh && eh <= prm.P {
+				cl = "1response"
+				if eh-sh > lsync.VerifC19MaxBlocksPerResponse {
+					cl = "responses"
+				}
+				switch d := prm.P - eh; {
+				case d == 0:
+					cl += ":tip-at-end"
+				case d == 1:
+					cl += ":tip-1-above"
+				case d < lsync.VerifC19MaxBlocksPerResponse:
+					cl += ":tip-above"
+				default:
+					cl += ":tip-far-above"
+				}
+			}
+			kinds["geo:download:"+cl+":"+first] = true
+		case "cs":
+			fin, _ := kvInt(w, "fin")
+			n, _ := kvInt(w, "n")
+			kinds["geo:search:"+searchClass(prm.Q, fin, n, prm.F)+":"+first] = true
 		case "best":
 			if strings.Contains(out[i], ",") {
 				kinds["best:several-answers"] = true
@@ -234,8 +302,37 @@ func (prop) Classify(c corr.Case, out []string) string {
 					res += "+ban"
 				}
 			}
-			return "sync:" + mode + ":" + b.kind() + ":" + res
+			cl := "sync:" + mode + ":" + b.kind() + ":" + res
+			if mode == "block" && b.honest() {
+				cl += ":" + searchClass(prm.Q, finQ, prm.N, prm.F)
+			}
+			if b.target >= 0 && b.target < prm.P {
+				cl += ":tip-above-announced"
+			}
+			return cl
 		}
+	}
+	geo := []string{}
+	for k := range kinds {
+		if strings.HasPrefix(k, "geo:") {
+			geo = append(geo, k)
+		}
+	}
+	if len(geo) > 0 {
+		// one class per case: the rarest-looking combination is what matters, name them all (bounded vocabulary)
+		sort.Strings(geo)
+		if len(geo) > 6 {
+			pref := map[string]bool{}
+			for _, k := range geo {
+				pref[strings.Join(strings.Split(k, ":")[:3], ":")] = true
+			}
+			geo = geo[:0]
+			for k := range pref {
+				geo = append(geo, k)
+			}
+			sort.Strings(geo)
+		}
+		return strings.Join(geo, "+")
 	}
 	if len(kinds) == 0 {
 		return ""
@@ -634,6 +731,7 @@ func genSync(rng *rand.Rand, tier string) []corr.Case {
 		add(params{P: 60, F: 40, Q: 45, N: 7, Cache: 515}, "")
 		add(params{P: 60, F: 40, Q: 45, N: 7, Cache: 515}, "badexec=50")
 	}
+	l = append(l, genSyncGeometry(rng, tier)...)
 	var cases []corr.Case
 	for _, sc := range l {
 		f, err := factsOf(sc.prm)
@@ -652,6 +750,13 @@ func genSync(rng *rand.Rand, tier string) []corr.Case {
 			}
 			op += fmt.Sprintf(" finpeak=%d", fp)
 		}
+		if t, ok := kvInt(strings.Fields(sc.b), "target"); ok {
+			m, err := mhpAt(sc.prm, t)
+			if err != nil {
+				continue
+			}
+			op += fmt.Sprintf(" tmhp=%d", m)
+		}
 		cases = append(cases, corr.Case{Ops: []string{resetLine(sc.prm, f), op}, Tag: "sync"})
 	}
 	return cases
@@ -660,6 +765,7 @@ func genSync(rng *rand.Rand, tier string) []corr.Case {
 func (prop) Generate(rng *rand.Rand, tier string) []corr.Case {
 	var cases []corr.Case
 	cases = append(cases, genSync(rng, tier)...)
+	cases = append(cases, genGeometry(rng, tier)...)
 	cases = append(cases, genHandlers(rng, tier)...)
 	cases = append(cases, genHelpers(rng, tier)...)
 	cases = append(cases, genBest(rng, tier)...)
